@@ -1,8 +1,9 @@
 """Settlement typestate of the four Policy entry points (shared by C07, C08, C09).
 
-Typestate per path:  adm in {NA, ASKED, AD, REJ}  x  the sequence of breaker records made.
+Typestate per path:  adm in {NA, NB, ASKED, AD, REJ}  x  the sequence of breaker records made.
 
-    NA     the breaker has not been asked (or there is no breaker)
+    NA     the breaker has not been asked yet
+    NB     the `breaker is None` edge was taken: there is no breaker on this path
     ASKED  CircuitBreaker.allow() returned, `.allowed` not yet tested
     AD     the allowed-edge was taken: the call is admitted
     REJ    the rejected edge was taken
@@ -104,6 +105,8 @@ class BreakerFlow(Client):
     # ---- typestate
     def on_event(self, ev: Event, cs: Any) -> Any:
         adm, recs, flags = cs
+        if ev.kind == "await" and ev.real and adm == "ASKED":
+            return (adm, recs, flags | {f"await-asked: suspension point between allow() and the test of its answer in {ev.func.qual}"})
         if ev.kind == "call" and ev.target is not None:
             tg = ev.target
             if tg.kind == "repo" and tg.func is not None:
@@ -116,7 +119,7 @@ class BreakerFlow(Client):
                 if q in RECORDS:
                     self.sites["record"].add(ev.where())
                     kind = RECORDS[q]
-                    if adm in ("NA", "REJ"):
+                    if adm in ("NA", "REJ", "NB"):
                         via = ev.stack[-1][0] if ev.stack else ev.func.qual
                         flags = flags | {f"record-unadmitted|{adm}|{kind}|{ev.func.qual}|via={via}"}
                     if len(recs) < 3:
@@ -124,14 +127,14 @@ class BreakerFlow(Client):
                     return (adm, recs, flags)
                 if tg.func.cls is not None and tg.func.cls.qual in RETRY_CLASSES and tg.func.name in ("call", "execute"):
                     self.sites["retry"].add(ev.where())
-                    if adm in ("ASKED", "REJ") or (adm == "NA" and not self._no_breaker(ev)):
+                    if adm in ("ASKED", "REJ", "NA"):
                         flags = flags | {f"operation-unadmitted|{adm}|{ev.func.qual}|retry.{tg.func.name}"}
                     return (adm, recs, flags)
             if tg.kind == "callback":
                 self.sites["callback"].add(f"{ev.where()}:{tg.category}")
                 if tg.category == "operation":
                     self.sites["operation"].add(ev.where())
-                    if adm in ("ASKED", "REJ") or (adm == "NA" and not self._no_breaker(ev)):
+                    if adm in ("ASKED", "REJ", "NA"):
                         flags = flags | {f"operation-unadmitted|{adm}|{ev.func.qual}|func"}
                     return (adm, recs, flags)
         return cs
@@ -154,6 +157,18 @@ class BreakerFlow(Client):
         cond = ev.node.info["cond"]
         if adm == "ASKED" and isinstance(cond, ast.Attribute) and cond.attr == "allowed":
             return ("AD" if branch else "REJ", recs, flags)
+        if (
+            adm == "NA"
+            and isinstance(cond, ast.Compare)
+            and len(cond.ops) == 1
+            and isinstance(cond.ops[0], (ast.Is, ast.IsNot))
+            and isinstance(cond.left, ast.Attribute)
+            and cond.left.attr == "breaker"
+            and isinstance(cond.comparators[0], ast.Constant)
+            and cond.comparators[0].value is None
+        ):
+            if isinstance(cond.ops[0], ast.Is) == branch:
+                return ("NB", recs, flags)  # there is no breaker on this path
         return cs
 
 
